@@ -47,9 +47,11 @@ inductive FStep (P : Project) (s : State) (t : Tid) : State → Prop where
   | wlockRet (d) (hpc : s.pc t = .wlock d) (hl : s.loaded d = true) :
       FStep P s t (setPc s t (.unset (resOf s d)))
   | wlockSleep (d) (hpc : s.pc t = .wlock d) (hl : s.loaded d = false) :
-      FStep P s t (setPc s t (.sleep d))
-  | wake (d) (hpc : s.pc t = .sleep d) (hl : s.loaded d = true) :
+      FStep P s t (goSleep s t d)
+  | wake (d) (hpc : s.pc t = .sleep d) (hna : (s.asleep d).contains t = false) (hl : s.loaded d = true) :
       FStep P s t (setPc s t (.unset (resOf s d)))
+  | wakeAgain (d) (hpc : s.pc t = .sleep d) (hna : (s.asleep d).contains t = false) (hl : s.loaded d = false) :
+      FStep P s t (goSleep s t d)
   | unsetRoot (r) (hpc : s.pc t = .unset r) (hst : s.stack t = []) :
       FStep P s t (setPc s t .finished)
   | unsetOk (f rest) (hpc : s.pc t = .unset .ok) (hst : s.stack t = f :: rest) :
@@ -59,6 +61,7 @@ inductive FStep (P : Project) (s : State) (t : Tid) : State → Prop where
       FStep P s t (setPc { s with loading := upd s.loading f.mod none } t (.fin r))
   | fin (r f rest) (hpc : s.pc t = .fin r) (hst : s.stack t = f :: rest) :
       FStep P s t { s with loaded := upd s.loaded f.mod true, result := upd s.result f.mod r,
+                           asleep := upd s.asleep f.mod [],
                            ftime := upd s.ftime f.mod s.clock, clock := s.clock + 1,
                            stack := upd s.stack t rest, pc := upd s.pc t (.unset r) }
 
@@ -153,11 +156,13 @@ theorem fstep_of_next {P : Project} {s s' : State} {t : Tid} (lf : LockFree s)
     | false => simp only [Bool.false_eq_true, ↓reduceIte]; exact .wlockSleep d hpc hl
   · rename_i d hpc
     split at h
-    · rename_i hl
-      cases h
-      simp only [hm, Option.isNone_none, Bool.and_true] at hl
-      exact .wake d hpc hl
     · cases h
+    · rename_i hna
+      simp only [hm, Option.isSome_none, Bool.or_false, Bool.not_eq_true] at hna
+      cases h
+      cases hl : s.loaded d with
+      | true => simp only [↓reduceIte]; exact .wake d hpc hna hl
+      | false => simp only [Bool.false_eq_true, ↓reduceIte]; exact .wakeAgain d hpc hna hl
   · rename_i r hpc
     split at h
     · rename_i hst; cases h; exact .unsetRoot r hpc hst
@@ -181,13 +186,15 @@ theorem lockFree_init (P : Project) : LockFree (init P) := by
 
 theorem lockFree_fstep {P : Project} {s s' : State} {t : Tid} (lf : LockFree s) (h : FStep P s t s') : LockFree s' := by
   obtain ⟨hm, hc⟩ := lf
-  cases h <;> refine ⟨?_, ?_⟩ <;> simp only [setPc, publish] <;> first | exact hm | skip
+  cases h <;> refine ⟨?_, ?_⟩ <;> simp only [setPc, publish, goSleep] <;> first | exact hm | skip
   all_goals
     intro t' d'
-    simp only [upd]
-    split
-    · simp
-    · exact hc t' d'
+    first
+      | exact hc t' d'
+      | (simp only [upd]
+         split
+         · simp
+         · exact hc t' d')
 
 theorem lockFree_reachable {P : Project} {s : State} (h : Reachable .fixed P s) : LockFree s := by
   induction h with
